@@ -162,7 +162,7 @@ SUBCHECKS = [
         "time_maps",
         oracle,
         strategy=strat,
-        budget={"quick": 400, "thorough": 6000},
+        budget={"quick": 250, "thorough": 6000},
         rule="generated parts with division/time-signature changes (on and off bar lines), pickups, irregular bars, notated/musical beats; maps compared with Fraction arithmetic at every integer position; non-trivial = >=1 division change and >=1 signature change strictly inside the timeline",
         floors={"pickup": 0.05, "musical-beats-with-ts-change": 0.03, "change-not-on-barline": 0.05},
     ),
